@@ -185,9 +185,22 @@ func guardedNonNil(p *Program, facts map[*ssa.BasicBlock]map[condFact]bool, b *s
 	return false
 }
 
-func ruleC13a(c *Ctx) {
+func ruleC13a(c *Ctx) { ruleC13aScoped(c, func(string) bool { return true }) }
+
+// ruleC13aWriters / ruleC13aReaders restrict the typestate rule to the objects a property speaks about.
+func ruleC13aWriters(c *Ctx) {
+	ruleC13aScoped(c, func(k string) bool { return k == "GzipWriter" || k == "ZlibWriter" })
+}
+func ruleC13aReaders(c *Ctx) { ruleC13aScoped(c, func(k string) bool { return k == "GzipReader" }) }
+
+func ruleC13aScoped(c *Ctx, inScope func(kind string) bool) {
 	p := c.P
-	sites := acquireSites(p)
+	var sites []acquireSite
+	for _, s := range acquireSites(p) {
+		if inScope(s.Kind) {
+			sites = append(sites, s)
+		}
+	}
 	c.count("acquire_sites", len(sites))
 	ownerFields := map[*types.Var]bool{}
 	for _, s := range sites {
@@ -287,7 +300,7 @@ func ruleC13a(c *Ctx) {
 	for _, fn := range p.SrcFunc {
 		eachInstr(fn, func(i ssa.Instruction) {
 			k, ok := providerCall(p, i, "Release")
-			if !ok {
+			if !ok || !inScope(k) {
 				return
 			}
 			cc := callCommon(i)
